@@ -28,6 +28,7 @@ EXPECT = {
     "integer literals are base 10": ["C14"],
     "negative integer literals": ["C14"],
     "LoadPolicies refuses serialized policies": ["C18"],
+    "LoadPolicies keeps the meaning": ["C04"],
 }
 def sh(cmd, **kw):
     return subprocess.run(cmd, shell=True, capture_output=True, text=True, **kw)
